@@ -160,3 +160,17 @@ Theorem C11_never_hangs_find_mark_mac :
     (0 <= startPos)%Z -> (0 <= find_mark_mac_work buflen startPos maxPos fromTail <= Z.max 16 buflen)%Z.
 Proof. exact find_mark_mac_work_bounded. Qed.
 Print Assumptions C11_never_hangs_find_mark_mac.
+
+(* ---- "never hangs" for the DNS section loops: whatever the counts in the header say (up to 65535 each), the
+   loops stop at the first failed read and every successful read moves the reader forward *)
+Theorem C11_never_hangs_dns_questions :
+  forall msg count l e p,
+    read_many read_question count msg 12 [] = Ok (l, e, p) -> 12 <= blen msg -> N.of_nat (length l) <= blen msg.
+Proof. exact questions_bounded_by_length. Qed.
+Print Assumptions C11_never_hangs_dns_questions.
+
+Theorem C11_never_hangs_dns_records :
+  forall count msg pos acc l e p,
+    read_many read_rr count msg pos acc = Ok (l, e, p) -> N.of_nat (length l) + pos <= N.of_nat (length acc) + p.
+Proof. exact read_many_rr_bounded. Qed.
+Print Assumptions C11_never_hangs_dns_records.
